@@ -62,6 +62,7 @@ var (
 	c14StartNs    int64
 	c14CatInput   string
 	c14MedInput   string
+	c14SpreadInput string
 	c14CalibOnce  sync.Once
 	c14CatNatural time.Duration
 	c14Failed     int
@@ -98,6 +99,18 @@ func c14Calibrate() {
 		for e := best; e > 12*time.Millisecond && nMed > 10; e /= 2 {
 			nMed--
 		}
+		// "spread": polynomial backtracking spread over many start positions, each attempt far cheaper than
+		// any timeout — the deadline has to bound the whole scan, not one attempt
+		sp := regexp2.MustCompile(`(\w+)\s*(\w+)\s*=`)
+		nSp := 200
+		for ; nSp < 6400; nSp = nSp * 3 / 2 {
+			t := time.Now()
+			_, _ = sp.MatchString(strings.Repeat("x", nSp))
+			if time.Since(t) > 1200*time.Millisecond {
+				break
+			}
+		}
+		c14SpreadInput = strings.Repeat("x", nSp)
 		c14CatInput = strings.Repeat("a", nCat) + "b"
 		c14MedInput = strings.Repeat("a", nMed) + "b"
 		c14CatNatural = best << uint(nCat-18)
@@ -232,6 +245,8 @@ func c14RunMatch(kind string, d int64) (timedOut bool, other string, t0, t1 int6
 		re, in = regexp2.MustCompile(`(a+)+$`), c14CatInput
 	case "med":
 		re, in = regexp2.MustCompile(`(a+)+$`), c14MedInput
+	case "spread":
+		re, in = regexp2.MustCompile(`(\w+)\s*(\w+)\s*=`), c14SpreadInput
 	default:
 		re, in = regexp2.MustCompile(`a+b`), "xxaab"
 	}
@@ -307,7 +322,7 @@ func c14Execute(cs c14Case, lateAllow int64) *c14Run {
 	}
 	for i, ev := range cs.Events {
 		switch ev.Op {
-		case "cat", "med", "quick":
+		case "cat", "med", "quick", "spread":
 			single(i, ev.Op, ev.D)
 		case "idle":
 			time.Sleep(time.Duration(ev.Gap))
@@ -507,11 +522,11 @@ func c14Judge(cs c14Case, r *c14Run, m *c14Model, lateAllow int64) (fs []c14Find
 					fmt.Sprintf("no timeout before d - 2 ticks - eps = %dns (eps = %dns)", x.D-2*c14Tick-eps, eps), fmt.Sprintf("timeout after %dns", el))
 				continue
 			}
-			if x.Kind != "cat" {
+			if x.Kind != "cat" && x.Kind != "spread" {
 				buckets = append(buckets, "slow-"+x.Kind+"-timed-out-when-due")
 			}
 		}
-		if x.Kind == "cat" {
+		if x.Kind == "cat" || x.Kind == "spread" {
 			if !x.TimedOut {
 				add("impl-violation", "no-timeout", desc+fmt.Sprintf(" ran to its natural end (%dns) without a timeout error", el), "timeout error", "nil")
 				continue
@@ -780,7 +795,7 @@ func c14Gen(rng *rand.Rand, i int) c14Case {
 	for len(evs) < n {
 		switch k := rng.Intn(20); {
 		case k < 6:
-			evs = append(evs, c14Event{Op: "cat", D: catD()})
+			evs = append(evs, c14Event{Op: []string{"cat", "cat", "cat", "spread"}[rng.Intn(4)], D: catD()})
 		case k < 9:
 			d := quickD()
 			if d > 2*c14Second && d != math.MaxInt64 {
@@ -835,7 +850,7 @@ func c14Corpus() []c14Case {
 		{PeriodNs: c14Ms, Events: []c14Event{
 			{Op: "quick", D: mx - 1}, {Op: "quick", D: mx - c14Ms}, {Op: "quick", D: mx - c14Ms + 1}, {Op: "quick", D: mx}, {Op: "med", D: mx - 1},
 			{Op: "stop"}, {Op: "cat", D: 30 * c14Ms}, {Op: "idle", Gap: 300 * c14Ms}, {Op: "longidle", Gap: 5 * c14Ms},
-			{Op: "cat", D: 20 * c14Ms}, {Op: "quick", D: 50 * c14Ms}, {Op: "idle", Gap: 5 * c14Ms}, {Op: "cat", D: 50 * c14Ms}, {Op: "stop"}, {Op: "cat", D: 20 * c14Ms}, {Op: "med", D: c14Second},
+			{Op: "cat", D: 20 * c14Ms}, {Op: "quick", D: 50 * c14Ms}, {Op: "idle", Gap: 5 * c14Ms}, {Op: "spread", D: 50 * c14Ms}, {Op: "stop"}, {Op: "cat", D: 20 * c14Ms}, {Op: "med", D: c14Second},
 		}},
 		// the time left by a stopped clock is older than timeout + 1s (the slop of clockEnd): the restarted clock
 		// must be set to run until the new deadline, not until one computed from the old time
@@ -858,7 +873,7 @@ func init() {
 	core.Register("C14", func(c *core.Ctx) {
 		core.RunLeg(c, core.Leg[c14Case]{
 			Name: "H", Kind: "oracle+correspondence",
-			Rule:   "histories of 6-12 events on the real process-wide clock with SetTimeoutCheckPeriod(1ms) (every 4th: 4 or 16 c14Ms): catastrophic (a+)+$ matches with MatchTimeout 20-81ms, matches of a few c14Ms and instant matches with timeouts from 20ms to MaxInt64 (incl. MaxInt64-1, MaxInt64-period, MaxInt64-period+1), idle gaps 0-120ms, one gap beyond deadline+1s+period per history, StopTimeoutClock, 2-4 concurrent matches with different deadlines; a stack dump after every event. Oracle: a catastrophic match returns a timeout error, no timeout is reported before d - 2 ticks - eps (eps = 10ms for a deadline made while the clock was running, 0 when it was seen stopped), none later than d + 2 periods + 1 tick + allowance (150ms quick / 250ms thorough), the goroutine is gone after StopTimeoutClock and once every deadline + 1s + 2 periods (+allowance) has passed. Correspondence: the same history with measured timestamps run on the Lean model (ideal ticks): no timeout before the model's deadline can be reached (sharp when the clock was seen stopped before the call), goroutine present while the model's clock runs, gone after it left its loop. A finding counts only if its class recurs in 3 of 3 runs of the history. non-trivial = more than one event; distinct by history",
+			Rule:   "histories of 6-12 events on the real process-wide clock with SetTimeoutCheckPeriod(1ms) (every 4th: 4 or 16 c14Ms): catastrophic (a+)+$ matches and matches whose cubic cost is spread over a thousand start positions ((\\w+)\\s*(\\w+)\\s*= on a run of word characters), both with MatchTimeout 20-81ms, matches of a few c14Ms and instant matches with timeouts from 20ms to MaxInt64 (incl. MaxInt64-1, MaxInt64-period, MaxInt64-period+1), idle gaps 0-120ms, one gap beyond deadline+1s+period per history, StopTimeoutClock, 2-4 concurrent matches with different deadlines; a stack dump after every event. Oracle: a catastrophic match returns a timeout error, no timeout is reported before d - 2 ticks - eps (eps = 10ms for a deadline made while the clock was running, 0 when it was seen stopped), none later than d + 2 periods + 1 tick + allowance (150ms quick / 250ms thorough), the goroutine is gone after StopTimeoutClock and once every deadline + 1s + 2 periods (+allowance) has passed. Correspondence: the same history with measured timestamps run on the Lean model (ideal ticks): no timeout before the model's deadline can be reached (sharp when the clock was seen stopped before the call), goroutine present while the model's clock runs, gone after it left its loop. A finding counts only if its class recurs in 3 of 3 runs of the history. non-trivial = more than one event; distinct by history",
 			Corpus: c14Corpus(), N: c.N(9, 330), Gen: c14Gen, Check: c14Check,
 		})
 		c14BurstLeg(c)
